@@ -338,6 +338,12 @@ def construct(spec):
                 elif kind == "cubic":
                     if "prior" in kw:
                         kw["prior"] = mk_prior(cuqi, kw["prior"], 2)
+                    dk = spec.get("data_kind")
+                    if dk and "data" in kw:
+                        kw["data"] = {"int": int, "float": float, "np": np.float64, "bool": bool, "array": lambda v: np.array([float(v)]),
+                                      "npint": np.int64}[dk](kw["data"])
+                    if spec.get("noise_kind") == "np" and "noise_std" in kw:
+                        kw["noise_std"] = np.float64(kw["noise_std"])
                     tp = TP.WangCubic(**kw)
                 else:
                     raise ValueError(kind)
@@ -348,7 +354,7 @@ def construct(spec):
         return None, d, type(e).__name__ + ": " + str(e)[:120]
 
 
-SOURCES = {"one": lambda xs: 1 + 0 * xs, "lin": lambda xs: 2 * xs + 1, "quad": lambda xs: 4 * xs * xs}
+SOURCES = {"zero": lambda xs: 0 * xs, "one": lambda xs: 1 + 0 * xs, "lin": lambda xs: 2 * xs + 1, "quad": lambda xs: 4 * xs * xs}
 OBSMAPS = {"upper": lambda g: g[np.where(g > 0.45)], "every2": lambda g: g[::2]}
 MAPS = {"exp": (lambda x: np.exp(x), lambda x: np.log(x)), "affine": (lambda x: 2 * x + 1, lambda x: (x - 1) / 2)}
 
@@ -388,7 +394,7 @@ def prior_of(spec, dim):
 def common_cases(spec, tp, d, cell, stated, info_expected):
     """stated = ("std", s) | ("scaled", s) | ("snr", SNR) | ("given", s)   (given: WangCubic, data is an argument)"""
     cases = []
-    rule, val = stated
+    rule, val = stated[0], stated[1]
     m, dd, info = tp.get_components()
     L, P = tp.likelihood, tp.posterior
     snap = {nm: (None if a is None else np.array(a, dtype=float, copy=True)) for nm, a in
@@ -423,6 +429,11 @@ def common_cases(spec, tp, d, cell, stated, info_expected):
             fail = "likelihood covariance %s is not the stated noise variance %s" % (cov, s2)
         cases.append(Case(expr=expr, meta=dict(spec, obs="data"), cell=cell + "/data", kind="EXACT",
                           trivial=all(v == 0 for v in z)))
+        if rule == "std" and np.size(L.distribution.cov) == 1:
+            dflt = 0.0036 if spec["tp"] == "deconv2d" else 0.01
+            sup = spec.get("kw", {}).get("noise_std")
+            cases.append(Case(expr="check_default_sq tol9 %s %s %s" % (copt(sup, lambda v: cqc(float(v))), cqc(Fraction(dflt).limit_denominator(10 ** 6)), cqc(float(np.ravel(L.distribution.cov)[0]))),
+                              meta=dict(spec, obs="noise_std-argument"), cell=cell + "/arguments", kind="EXACT"))
         if fail:
             cases.append(verdict_case(dict(spec, obs="data"), cell + "/data", fail, "%s|data-rule" % spec["tp"]))
     else:
@@ -465,7 +476,7 @@ def common_cases(spec, tp, d, cell, stated, info_expected):
         mu, ps2 = prior_of(spec, len(x))
         v = float(np.asarray(P.logd(np.array(x))).ravel()[0])
         mx = fl(m.forward(np.array(x)))
-        data = fl(dd)
+        data = [stated[2]] if rule == "given" else fl(dd)      # WangCubic: the SUPPLIED observation, not what is handed back
         s2v = [float(a) for a in (s2 if np.ndim(s2) else [s2] * len(data))]
         if min(s2v) > 1e-12 and math.isfinite(v):
             xmu = clist(["(%s, %s)" % (cr(a), cr(b)) for a, b in zip(x, mu)])
@@ -670,6 +681,23 @@ def deconv1d_cases(spec, cell):
     return cases
 
 
+def zero_noise_case(spec, cell):
+    """noise_std = 0 (falsy but supplied): either refused (a Gaussian with zero covariance cannot be sampled) or noise-free data --
+    never the default noise level"""
+    tp, d, err = construct(spec)
+    ok, detail = True, None
+    if tp is not None:
+        cov = np.asarray(tp.likelihood.distribution.cov, dtype=float).ravel()
+        ok = bool(np.all(cov == 0)) and np.array_equal(np.asarray(tp.data, dtype=float), np.asarray(tp.exactData, dtype=float))
+        if not ok:
+            detail = "noise_std=0 was supplied but the problem was built with noise covariance %s (data - exactData = %s): a default replaced the supplied value" % (
+                cov, (np.asarray(tp.data, dtype=float) - np.asarray(tp.exactData, dtype=float)).tolist())
+    c = [Case(expr=cbool(ok), meta=spec, cell=cell, kind="DECISION", trivial=tp is None)]
+    if detail:
+        c.append(verdict_case(spec, cell, detail, "%s|noise_std-argument" % spec["tp"]))
+    return c
+
+
 def refusal_case(spec, cell, expected_refused):
     tp, d, err = construct(spec)
     refused = tp is None
@@ -736,7 +764,7 @@ def legacy_cases(spec, cell):
             elif k == "vonmises":
                 mod = "(legacy_vonmises_R %s %s)" % (cr(pdef), cr(g))
             else:
-                if m_ == 0:
+                if m_ == 0 or pdef == 0:
                     mod = "(IZR 1)"
                 else:
                     mod = "(legacy_sinc_R %s %s)" % (cr(pdef), cr(g))
@@ -863,6 +891,11 @@ def poisson_cases(spec, cell):
     N = n - 1
     dx = ep / N
     kappa = fl(tp.exactSolution)          # function values of the conductivity
+    supplied_fail = None
+    if "exactSolution" in kw:
+        if not np.array_equal(np.asarray(kappa), np.asarray(kw["exactSolution"], dtype=float)):
+            supplied_fail = "Poisson1D(exactSolution=%s): problem.exactSolution = %s -- the supplied array was replaced" % (kw["exactSolution"], kappa)
+        kappa = [float(v) for v in kw["exactSolution"]]
     src = SOURCES[kw.get("source", "one")]
     grid = [dx + i * (ep - dx) / N for i in range(N)]     # the code's source grid: linspace(dx, endpoint, N, endpoint=False)
     rhs = [float(v) for v in src(np.array(grid))]
@@ -886,7 +919,7 @@ def poisson_cases(spec, cell):
         if not spec.get("scale"):
             cases.append(Case(expr="check_poisson tol6 %s %s %s %s %s" % (cnat(N), cqc(Fraction(ep).limit_denominator(64) / N), cqcvec(kappa), cqcvec(y), cqcvec(rhs)),
                               meta=dict(spec, obs="residual"), cell=cell + "/residual", kind="EXACT"))
-        srcn = {"one": "SrcOne", "lin": "SrcLin", "quad": "SrcQuad"}[kw.get("source", "one")]
+        srcn = {"one": "SrcOne", "lin": "SrcLin", "quad": "SrcQuad", "zero": "SrcZero"}[kw.get("source", "one")]
         cases.append(Case(expr="check_poisson_full tol6 %s %s %s %s %s" % (srcn, cnat(N), cqc(Fraction(ep)), cqcvec(kappa), cqcvec(y)),
                           meta=dict(spec, obs="equation"), cell=cell + "/equation", kind="EXACT"))
         cases.append(Case(expr="check_poisson_grid tol9 %s %s %s %s" % (cbool(probe_state()["pgrid_fixed"]), cnat(N), cqc(Fraction(ep)), cqcvec(fl(tp.model.range_geometry.grid))),
@@ -895,6 +928,8 @@ def poisson_cases(spec, cell):
             cases.append(verdict_case(dict(spec, obs="grid"), cell + "/grid",
                                       "Poisson1D(dim=%d, endpoint=%r): the published range/solution grid %s is not the node grid %s on which the source term is sampled (first node 1/(dim-1) instead of endpoint/(dim-1))"
                                       % (n, ep, fl(tp.model.range_geometry.grid), grid), SIG_PG))
+    if supplied_fail:
+        cases.append(verdict_case(spec, cell, supplied_fail, "Poisson1D|exactSolution-argument"))
     if not rclose(y, want, 1e-8):
         cases.append(verdict_case(spec, cell, "exactData %s does not solve the documented discrete Poisson equation (observed nodes): %s" % (y, want), "Poisson1D|exactData"))
     cases += common_cases(spec, tp, d, cell, ("snr", float(kw.get("SNR", 200))), None)
@@ -910,7 +945,7 @@ def heat_cases(spec, cell):
     dx = ep / (N + 1)
     steps = int(T / (5 / 11 * dx ** 2))
     dt = T / steps if steps else 0.0
-    u = np.array(fl(tp.exactSolution))       # initial condition (function values)
+    u = np.array([float(v) for v in kw["exactSolution"]] if "exactSolution" in kw else fl(tp.exactSolution))       # initial condition (function values)
     Dxx = (np.diag(-2 * np.ones(N)) + np.diag(np.ones(N - 1), -1) + np.diag(np.ones(N - 1), 1)) / dx ** 2
     for _ in range(steps):
         u = u + dt * (Dxx @ u)               # forward Euler, the documented default
@@ -922,6 +957,10 @@ def heat_cases(spec, cell):
     cases.append(Case(expr=cbool(len(y) == len(u)), meta=dict(spec, obs="shape"), cell=cell + "/shape", kind="DECISION", trivial=True))
     nsteps = len(tp.model.pde.time_steps) - 1
     u0 = fl(tp.exactSolution)
+    if "exactSolution" in kw:        # a supplied exact solution (also an all-zero one) is the one the problem is built on
+        if not np.array_equal(np.asarray(u0), np.asarray(kw["exactSolution"], dtype=float)):
+            cases.append(verdict_case(spec, cell, "Heat1D(exactSolution=%s): problem.exactSolution = %s -- the supplied array was replaced" % (kw["exactSolution"], u0), "Heat1D|exactSolution-argument"))
+        u0 = [float(v) for v in kw["exactSolution"]]
     fn = "check_heat_every2" if "observation_grid_map" in kw else "check_heat"
     cases.append(Case(expr="%s tol9 %s %s %s %s %s %s" % (fn, cnat(N), cqc(Fraction(ep)), cqc(Fraction(T) if spec.get("scale") else Fraction(T).limit_denominator(1000)), cnat(nsteps), cqcvec(u0), cqcvec(y)),
                       meta=dict(spec, obs="solution"), cell=cell + "/solution", kind="EXACT"))
@@ -954,10 +993,17 @@ def cubic_cases(spec, cell):
     fd = ((10 * X1 - 10 * (X0 + h) ** 3 + 5 * (X0 + h) ** 2 + 6 * (X0 + h)) - (10 * X1 - 10 * (X0 - h) ** 3 + 5 * (X0 - h) ** 2 + 6 * (X0 - h))) / (2 * h)
     if frac(f) != wf or abs(frac(J[0]) - fd) > Fraction(1, 10 ** 6) or J[1] != 10:
         cases.append(verdict_case(spec, cell, "forward/Jacobian at (%r,%r): %r, %r; documented cubic %s, central difference %s" % (x0, x1, f, J, float(wf), float(fd)), "WangCubic|forward"))
-    data = kw.get("data", 1)
-    if float(np.asarray(tp.data).ravel()[0]) != float(data) or tp.exactSolution is not None or tp.exactData is not None:
-        cases.append(verdict_case(spec, cell, "data handed out is not the data given", "WangCubic|data"))
-    cases += common_cases(spec, tp, d, cell, ("given", float(kw.get("noise_std", 1))),
+    data = kw.get("data", 1)       # the documented default applies ONLY when the argument is omitted
+    od, ol = float(np.asarray(tp.data).ravel()[0]), float(np.asarray(tp.likelihood.data).ravel()[0])
+    ocov = float(np.asarray(tp.likelihood.distribution.cov).ravel()[0])
+    args = "(mkCubicArgs %s %s)" % (copt(kw.get("noise_std"), cqc), copt(kw.get("data"), lambda v: cqc(float(v))))
+    cases.append(Case(expr="check_cubic_args %s %s %s %s" % (args, cqc(od), cqc(ol), cqc(ocov)), meta=dict(spec, obs="arguments"),
+                      cell=cell + "/arguments", kind="EXACT"))
+    if od != float(data) or ol != float(data) or tp.exactSolution is not None or tp.exactData is not None:
+        cases.append(verdict_case(dict(spec, obs="arguments"), cell + "/arguments",
+                                  "WangCubic(data=%r): problem.data = %r, likelihood.data = %r -- the supplied observation is %r (the default 1 applies only when data is omitted)"
+                                  % (kw.get("data", "<omitted>"), tp.data, tp.likelihood.data, data), "WangCubic|data"))
+    cases += common_cases(spec, tp, d, cell, ("given", float(kw.get("noise_std", 1)), float(data)),
                           "Noise type: Additive Gaussian with std: {}".format(kw.get("noise_std", 1)))
     return cases
 
@@ -1063,7 +1109,7 @@ def phantom_cases(kind, dim, param):
             if kind == "gauss":
                 mod = "(ph_gauss_R %s %s)" % (cr(p), cr(T[i]))
             elif kind == "sinc":
-                mod = "(IZR 1)" if T[i] == 0 else "(ph_sinc_R %s %s)" % (cr(p), cr(T[i]))
+                mod = "(IZR 1)" if p * T[i] == 0 else "(ph_sinc_R %s %s)" % (cr(p), cr(T[i]))
             elif kind == "vonmises":
                 mod = "(ph_vonmises_R %s %s %s)" % (cr(p), cr(T[i]), cr(tm))
             elif kind == "bumps":
@@ -1180,6 +1226,26 @@ def specs(ctx):
         kw.update(psf1(rng.choice(["asym3", "even2", "asym5"]), n))
         out.append(({"tp": "deconv1d", "kw": kw, "style": sty, "z": zvec(rng, n, k), "x": dyvec(rng, n)},
                     "Deconvolution1D/style/%s" % "+".join("%s=%s" % kv for kv in sorted(sty.items())), "deconv1d"))
+    # falsy-but-legitimate argument values next to None/default: a supplied 0 / 0.0 / all-zero array stays what was supplied
+    for nm, kwf, sty in [("phantom-zeros", {"PSF": [1, 2, 3], "phantom": [0] * 5}, {}), ("phantom-zeros-int", {"PSF": [1, 2, 3], "phantom": [0] * 5}, {"phantom": "int"}),
+                         ("phantom-leading-zero", {"PSF": [1, 2, 3], "phantom": [0, 3, 0, -1, 0]}, {}), ("PSF-zeros", {"PSF": [0, 0, 0], "phantom": [1, 2, 3, 4, 5]}, {}),
+                         ("PSF-leading-zero", {"PSF": [0, 2, 1], "phantom": [1, 2, 3, 4, 5]}, {}), ("PSF_param-0.0", {"PSF": "defocus", "PSF_size": 3, "PSF_param": 0.0, "phantom": [1, 2, 3, 4, 5]}, {}),
+                         ("PSF_param-0", {"PSF": "Defocus", "PSF_size": 4, "PSF_param": 0, "phantom": [1, 2, 3, 4, 5]}, {}),
+                         ("prior-zero-mean", {"PSF": [1, 2, 3], "phantom": [1, 0, 2, 0, 1], "prior": {"mean": [0.0] * 5, "cov": 0.25}}, {}),
+                         ("use_legacy-False", {"PSF": [1, 2, 3], "phantom": [1, 0, 2, 0, 1], "use_legacy": False}, {})]:
+        k += 1
+        kw = dict({"dim": 5, "BC": rng.choice(["zero", "periodic", "nearest", "reflect", "mirror"]), "noise_std": STD[k % 4]}, **kwf)
+        out.append(({"tp": "deconv1d", "kw": kw, "style": sty, "z": zvec(rng, 5, k), "x": dyvec(rng, 5)}, "Deconvolution1D/falsy/" + nm, "deconv1d"))
+    out.append(({"tp": "deconv1d", "kw": {"dim": 6}, "z": zvec(rng, 6, 2), "x": dyvec(rng, 6)}, "Deconvolution1D/all-defaults", "deconv1d"))
+    out.append(({"tp": "deconv1d", "kw": {"dim": 6, "use_legacy": True}, "z": zvec(rng, 6, 2), "x": dyvec(rng, 6)}, "Deconvolution1D/legacy/all-defaults", "legacy"))
+    for kind in ["gauss", "sinc", "vonMises"]:
+        for zero in [0, 0.0]:
+            k += 1
+            out.append(({"tp": "deconv1d", "kw": {"dim": 6, "PSF": kind, "PSF_param": zero, "use_legacy": True, "phantom": ivec(rng, 6), "noise_std": STD[k % 4]},
+                         "z": zvec(rng, 6, k), "x": dyvec(rng, 6)}, "Deconvolution1D/falsy/legacy-PSF_param-0", "legacy"))
+    for zero, nt in [(0, "gaussian"), (0.0, "gaussian"), (0.0, "scaledgaussian")]:
+        out.append(({"tp": "deconv1d", "kw": {"dim": 5, "PSF": [1, 2, 3], "phantom": [1, 2, 3, 4, 5], "noise_std": zero, "noise_type": nt}, "z": [1.0, 0, 0, 0, 0]},
+                    "Deconvolution1D/falsy/noise_std-0", "zero-noise"))
     # refusals
     for kw, refused in [({"dim": 6, "BC": "neumann"}, True), ({"dim": 6, "PSF": 7}, True), ({"dim": 6, "PSF": "sinc"}, True), ({"dim": 6, "PSF": [[1, 2], [3, 4]]}, True),
                         ({"dim": 6, "phantom": [1, 2, 3, 4, 5]}, True), ({"dim": 4, "phantom": [[1, 2], [3, 4]]}, True),
@@ -1262,6 +1328,18 @@ def specs(ctx):
               "phantom": [[rng.randint(-4, 4) for _ in range(n)] for _ in range(n)], "noise_std": 0.5}
         out.append(({"tp": "deconv2d", "kw": kw, "style": sty, "img": [ivec(rng, n) for _ in range(n)], "z": zvec(rng, n * n, k), "x": dyvec(rng, n * n)},
                     "Deconvolution2D/style/%s" % "+".join("%s=%s" % kv for kv in sorted(sty.items())), "deconv2d"))
+    for nm, kwf in [("phantom-zeros", {"PSF": [[1, 2], [3, 4]], "phantom": [[0] * 3] * 3}), ("PSF-zeros", {"PSF": [[0] * 3] * 3, "phantom": [[1, 2, 3], [0, 1, 0], [2, 0, 1]]}),
+                    ("PSF_param-0", {"PSF": "defocus", "PSF_size": 3, "PSF_param": 0, "phantom": [[1, 2, 3], [0, 1, 0], [2, 0, 1]]}),
+                    ("PSF_param-0.0", {"PSF": "Defocus", "PSF_size": 4, "PSF_param": 0.0, "phantom": [[1, 2, 3], [0, 1, 0], [2, 0, 1]]}),
+                    ("all-defaults", {})]:
+        k += 1
+        kw = dict({"dim": 3}, **kwf)
+        if kwf:
+            kw.update({"BC": rng.choice(["zero", "periodic", "nearest", "neumann", "mirror"]), "noise_std": 0.5})
+        out.append(({"tp": "deconv2d", "kw": kw, "img": [ivec(rng, 3) for _ in range(3)], "z": zvec(rng, 9, k), "x": dyvec(rng, 9)},
+                    "Deconvolution2D/falsy/" + nm if kwf else "Deconvolution2D/all-defaults", "deconv2d"))
+    out.append(({"tp": "deconv2d", "kw": {"dim": 3, "PSF": [[1, 2], [3, 4]], "phantom": [[1, 2, 3], [0, 1, 0], [2, 0, 1]], "noise_std": 0}, "z": [1.0] + [0.0] * 8},
+                "Deconvolution2D/falsy/noise_std-0", "zero-noise"))
     for kw, refused in [({"dim": 3, "BC": "reflect"}, True), ({"dim": 3, "PSF": 3}, True), ({"dim": 3, "noise_type": "poisson", "PSF": [[1]], "phantom": [[1, 2, 3]] * 3}, True),
                         ({"dim": 3, "phantom": "no-such-phantom", "PSF": [[1]]}, True)]:
         out.append(({"tp": "deconv2d", "kw": kw, "z": [0.0] * 9}, "Deconvolution2D/refusals", "refusal:%d" % refused))
@@ -1287,6 +1365,14 @@ def specs(ctx):
         n = rng.choice([3, 4, 5])
         out.append(({"tp": "abel", "kw": {"dim": n, "endpoint": 2.0 ** e_, "SNR": rng.choice([100, 8])}, "scale": True, "z": zvec(rng, n, k), "x": dyvec(rng, n, 1, 8)},
                     "Abel1D/scale/2^%d" % e_, "abel"))
+    out.append(({"tp": "abel", "kw": {"dim": 4, "field_params": {}}, "z": zvec(rng, 4, 2), "x": dyvec(rng, 4, 1, 8)}, "Abel1D/falsy/field_params-empty", "abel"))
+    out.append(({"tp": "abel", "kw": {"dim": 4}, "z": zvec(rng, 4, 1), "x": dyvec(rng, 4, 1, 8)}, "Abel1D/all-defaults", "abel"))
+    out.append(({"tp": "poisson", "kw": {"dim": 5, "source": "zero"}, "z": zvec(rng, 4, 2), "x": dyvec(rng, 5, 2, 8)}, "Poisson1D/falsy/source-zero", "poisson"))
+    out.append(({"tp": "poisson", "kw": {"dim": 5, "source": "lin", "field_params": {}}, "z": zvec(rng, 4, 2), "x": dyvec(rng, 5, 2, 8)}, "Poisson1D/falsy/field_params-empty", "poisson"))
+    for nm, kwf in [("exactSolution-zeros", {"exactSolution": [0.0] * 4}), ("exactSolution-with-zeros", {"exactSolution": [0.0, 1.0, 0.0, 2.0]}), ("max_time-0", {"max_time": 0}),
+                    ("max_time-0.0", {"max_time": 0.0, "exactSolution": [1.0, 0.0, 2.0, 0.5]}), ("field_params-empty", {"field_params": {}}), ("all-defaults", {})]:
+        k += 1
+        out.append(({"tp": "heat", "kw": dict({"dim": 4}, **kwf), "z": zvec(rng, 4, k), "x": dyvec(rng, 4)}, "Heat1D/falsy/" + nm if kwf else "Heat1D/all-defaults", "heat"))
     # ---------------- Poisson1D ----------------
     for e_ in [-10, -3, 6]:
         k += 1
@@ -1347,6 +1433,14 @@ def specs(ctx):
                                           "exactSolution": [rng.randint(1, 8) * 2.0 ** rng.choice([0, e_, -e_]) for _ in range(n)]},
                      "scale": True, "z": zvec(rng, n, k), "x": dyvec(rng, n)}, "Heat1D/scale/2^%d" % e_, "heat"))
     # ---------------- WangCubic ----------------
+    for dk in ["int", "float", "np", "npint", "bool", "array"]:
+        for ns in [None, 0.5]:
+            kw = {"data": 0}
+            if ns is not None:
+                kw["noise_std"] = ns
+            out.append(({"tp": "cubic", "kw": kw, "data_kind": dk, "noise_kind": "np" if dk == "np" else None, "x": dyvec(rng, 2, -12, 12, 8)}, "WangCubic/falsy/data-0-%s" % dk, "cubic"))
+    out.append(({"tp": "cubic", "kw": {"data": 1}, "data_kind": "bool", "x": dyvec(rng, 2, -12, 12, 8)}, "WangCubic/falsy/data-True", "cubic"))
+    out.append(({"tp": "cubic", "kw": {"data": 2.5}, "data_kind": "array", "x": dyvec(rng, 2, -12, 12, 8)}, "WangCubic/data-array", "cubic"))
     for var in ["default", "std", "data", "prior", "all"]:
         for _ in range(ctx.n(2, 8)):
             kw = {}
@@ -1388,6 +1482,8 @@ def handle(spec, cell, h):
         return cubic_cases(spec, cell)
     if h.startswith("refusal:"):
         return refusal_case(spec, cell, h.endswith("1"))
+    if h == "zero-noise":
+        return zero_noise_case(spec, cell)
     raise ValueError(h)
 
 
@@ -1414,7 +1510,7 @@ def run(ctx):
                     for c in psf_cases(kind, n, param, two_d=True):
                         c.meta = dict(c.meta, handler="psf"); cases.append(c)
     # string phantoms as formulas
-    for kind, params in [("gauss", [None, 2]), ("sinc", [None, 3]), ("vonmises", [None, 2]), ("bumps", [None]), ("derivgauss", [None, 3]),
+    for kind, params in [("gauss", [None, 2, 0]), ("sinc", [None, 3, 0.0]), ("vonmises", [None, 2, 0]), ("bumps", [None]), ("derivgauss", [None, 3]),
                          ("square", [None, 3, 4]), ("hat", [None, 3, 4]), ("pc", [None]), ("skyscraper", [None])]:
         for param in params:
             dims = {"pc": [1, 4, 8, 12, 14], "skyscraper": [4, 8, 12, 14, 18]}.get(kind, [2, 5, 6, 7, 8, 10] + ([16, 31] if kind in ("square", "hat") else []))
